@@ -66,6 +66,10 @@ use super::*;
 //@include prelude/visit_spec.rs
 //@include prelude/analyze_spec.rs
 //@include prelude/analyze_imports.rs
+//@include prelude/undecl_avail_spec.rs
+//@include prelude/undecl_spec.rs
+//@include prelude/visit_undecl.rs
+//@include prelude/analyze_undecl.rs
 //@include prelude/analyze_l2.rs
 //@include prelude/memokeys_spec.rs
 //@include prelude/fs_canonical_decl.rs
@@ -98,7 +102,7 @@ impl Backend {
 }
 
 impl FixtureDatabase {
-//@stub analyze analyze_file
+//@stub analyze_v4 analyze_file
 //@stub memo cleanup_file_cache
 }
 
